@@ -85,7 +85,10 @@ func (p *parser) Parse(objDump string) ([]Syscall, error) {
 
 		// Find the start of a function.
 		if strings.HasPrefix(line, functionMarker) {
-			function = line[5:]
+			function = ""
+			if len(line) > len(functionMarker) {
+				function = line[len(functionMarker)+1:]
+			}
 			instructions = instructions[:0]
 			continue
 		}
@@ -113,8 +116,8 @@ func (p *parser) Parse(objDump string) ([]Syscall, error) {
 		syscalls = append(syscalls, *syscall)
 	}
 
-	if s.Err() != nil {
-		return nil, err
+	if err := s.Err(); err != nil {
+		return nil, fmt.Errorf("failed to read objdump file: %v", err)
 	}
 
 	return syscalls, nil
@@ -171,6 +174,15 @@ func findSyscallNum(instructions []string, syscall *Syscall, matchers ...*regexp
 	return fmt.Errorf("assembly instruction for loading the syscall number was not found")
 }
 
+// functionField returns the instruction part of a disassembly line (everything
+// after the location, address and encoding columns).
+func functionField(fields []string) string {
+	if len(fields) < 3 {
+		return ""
+	}
+	return strings.Join(fields[3:], " ")
+}
+
 func lastInstruction(instructions []string) string {
 	if len(instructions) >= 2 {
 		return instructions[len(instructions)-2]
@@ -216,7 +228,7 @@ func parseX86_64(p *parser, line, caller string, instructions []string) (*Syscal
 				fields := strings.Fields(line)
 				return &Syscall{
 					Location: fields[0],
-					Function: strings.Join(fields[3:], " "),
+					Function: functionField(fields),
 					Num:      0,
 					Assembly: "XORL AX, AX",
 				}, nil
@@ -233,7 +245,7 @@ func parseX86_64(p *parser, line, caller string, instructions []string) (*Syscal
 	fields := strings.Fields(line)
 	s := &Syscall{
 		Location: fields[0],
-		Function: strings.Join(fields[3:], " "),
+		Function: functionField(fields),
 	}
 	if err := findSyscallNum(instructions, s, m); err != nil {
 		return nil, fmt.Errorf("failed to extract syscall from '%v': %v",
